@@ -58,6 +58,9 @@ pub enum BufOp {
     /// the closure panics here (a crash at an arbitrary instant): the view is released during
     /// unwinding and must still commit what was written
     PanicExit,
+    /// `extend` from an iterator that panics after yielding `after` bytes: the bytes stored before the
+    /// panic are part of what the view wrote when it is released during unwinding
+    ExtendPanics { len: u16, after: u16, salt: u32 },
 }
 
 fn v(class: &str, keys: &[(&str, &str)], obs: String) -> Violation {
@@ -182,6 +185,41 @@ impl<'a> Run<'a> {
                 BufOp::ReadRef { avail, fault, salt } => {
                     self.pos += 1;
                     self.pending_readref = Some((avail, fault, salt));
+                    return;
+                }
+                BufOp::ExtendPanics { len, after, salt } => {
+                    self.pos += 1;
+                    if depth > 0 {
+                        continue;
+                    }
+                    let data = bytes(self.cfg.seed, salt, len as usize);
+                    let k = (after as usize).min(data.len());
+                    let room = capacity - model.len();
+                    // bytes that fit and are yielded before the iterator gives up
+                    let stored = k.min(room);
+                    if k >= data.len() || k > room {
+                        // the iterator ends (or the buffer refuses) before the panic point: an ordinary extend
+                        let r = b.extend(data.iter().cloned());
+                        let now = capacity - b.remaining();
+                        let expect = data.len().min(room);
+                        if r.is_ok() != (data.len() <= room) || now != model.len() + expect {
+                            self.viol = Some(v("count-wrong", &[("call", "extend")], format!("extend of {} bytes into {} remaining: ok={} count {} (expected {})", data.len(), room, r.is_ok(), now, model.len() + expect)));
+                            return;
+                        }
+                        model.extend_from_slice(&data[..expect]);
+                        continue;
+                    }
+                    model.extend_from_slice(&data[..stored]);
+                    self.exit = true;
+                    self.stats.unwinds += 1;
+                    let mut n = 0usize;
+                    let _ = b.extend(data.iter().cloned().inspect(|_| {
+                        if n == k {
+                            panic!("{}", UNWIND_MARKER);
+                        }
+                        n += 1;
+                    }));
+                    self.viol = Some(v("count-wrong", &[("call", "extend-panicking-iterator")], format!("extend returned although its iterator panics after {} of {} bytes with {} remaining", k, data.len(), room)));
                     return;
                 }
                 BufOp::PanicExit => {
@@ -403,7 +441,7 @@ impl<'a> Run<'a> {
                         return;
                     }
                 }
-                BufOp::Reopen | BufOp::DropUnused | BufOp::SplitView | BufOp::ReadRef { .. } | BufOp::PanicExit => unreachable!(),
+                BufOp::Reopen | BufOp::DropUnused | BufOp::SplitView | BufOp::ReadRef { .. } | BufOp::PanicExit | BufOp::ExtendPanics { .. } => unreachable!(),
             }
         }
     }
@@ -740,7 +778,7 @@ impl Engine for BufEngine {
                 8 => ops.push(BufOp::NestedDropUnused { cap_at: if s.chance(1, 2) { Some(lens(&mut s)) } else { None } }),
                 9 => ops.push(BufOp::ReadRef { avail: lens(&mut s).saturating_add(s.below(5) as u16), fault: *s.pick(&[0u8, 0, 1, 1, 2, 3, 4]), salt: s.next_u64() as u32 }),
                 10 => ops.push(BufOp::SplitView),
-                11 => ops.push(BufOp::PanicExit),
+                11 => ops.push(if s.chance(1, 2) { BufOp::PanicExit } else { BufOp::ExtendPanics { len: lens(&mut s).saturating_add(2), after: s.range(0, rem + 2) as u16, salt: s.next_u64() as u32 } }),
                 4 => ops.push(BufOp::FailAndExit { len: s.range(0, 10) as u16 }),
                 5 => ops.push(BufOp::Reopen),
                 _ => ops.push(BufOp::DropUnused),
